@@ -98,6 +98,9 @@ type Node struct {
 	Gate    func(op string)
 	Cfg     config.Config
 	Agg     bool
+	// ExecImpl, if set, is the execution layer this process talks to instead of the Exec double of the Env
+	// (a coreexecutor.Executor; see NodeOpts.ExecImpl).
+	ExecImpl any
 }
 
 // NodeOpts lets a world replace individual parts.
@@ -109,6 +112,9 @@ type NodeOpts struct {
 	DStore     *P2PStore[*types.Data]
 	// OnWrite is installed on the KV before the manager is constructed (crashes during start-up).
 	OnWrite func(idx int, w Write) bool
+	// ExecImpl, if set, supplies the execution layer (a coreexecutor.Executor) for this process; nil = the Exec
+	// double of the Env. It is called after n.KV / n.Fate exist (see RealExec in realexec.go).
+	ExecImpl func(n *Node) any
 }
 
 // StartNode constructs a node process on a key/value image (nil = empty).
@@ -149,6 +155,9 @@ func StartNode(p Params, env *Env, image map[string][]byte, o NodeOpts) (*Node, 
 	var seq any = &SeqClient{Seq: env.Seq, Fate: n.Fate, Gate: o.Gate}
 	if o.SeqImpl != nil {
 		seq = o.SeqImpl(n)
+	}
+	if o.ExecImpl != nil {
+		n.ExecImpl = o.ExecImpl(n)
 	}
 	m, err := newManager(n, sg, seq)
 	if err != nil {
